@@ -81,20 +81,11 @@ def lit(v):
     return str(v)
 
 
-def build(spec):
+def _queries(spec, table, cells, qs):
     keys, width = spec['keys'], spec['width']
     h = len(keys)
-    cells = {}
-    table = []
-    for r, k in enumerate(keys):
-        row = [k] + [1000 * (r + 1) + c + 1 for c in range(1, width)]
-        table.append(row)
-        for c, v in enumerate(row):
-            if v is not None:
-                cells[f'{COLS[c]}{r + 1}'] = v
     tab = f'A1:{COLS[width - 1]}{h}'
     keyrng = f'A1:A{h}'
-    qs = []
     ascending = spec['kind'] == 'ascending'
     has_blank = any(k is None for k in keys)
     hrow = [0]
@@ -189,11 +180,40 @@ def build(spec):
             for r in range(1, h + 1):
                 qs.append(Q(f'=INDEX(A1:A{h},{r})', table[r - 1][0] if table[r - 1][0] is not None else F.BLANK,
                             'INDEX:colvec', True, ['fn:INDEX', 'vector']))
-    # COLUMN(): own column.  fcase lays queries out in one row starting at first_col
+
+
+def build(spec):
+    keys, width = spec['keys'], spec['width']
+    h = len(keys)
+    twin = bool(spec.get('twin'))
+    tables = {}
+    cells_of = {}
+    for home, shift in (('S', 0), ('T', 500000)) if twin else (('S', 0),):
+        cells_h = {}
+        table_h = []
+        for r, k in enumerate(keys):
+            row = [k] + [1000 * (r + 1) + c + 1 + shift for c in range(1, width)]
+            table_h.append(row)
+            for c, v in enumerate(row):
+                if v is not None:
+                    cells_h[f'{COLS[c]}{r + 1}'] = v
+        tables[home], cells_of[home] = table_h, cells_h
+    qs = []
+    on = []
+    for home in tables:
+        # the same texts on every sheet: an unqualified area belongs to the sheet of its formula
+        n0 = len(qs)
+        _queries(spec, tables[home], cells_of[home], qs)
+        on += [home] * (len(qs) - n0)
+        if home == 'T':
+            for q_ in qs[n0:]:
+                q_.tags.append('formula-on-second-sheet')
+    # COLUMN(): own column.  fcase lays the queries of a sheet out in one row starting at first_col
     first_col = 12
     if spec.get('column_self'):
-        qs.append(Q('=COLUMN()', first_col + len(qs), 'COLUMN:self', True, ['fn:COLUMN']))
-    return {'sheets': [{'title': 'S', 'cells': cells}], 'queries': qs, 'first_col': first_col, 'ncols': 400}
+        qs.append(Q('=COLUMN()', first_col + sum(1 for x in on if x == 'S'), 'COLUMN:self', True, ['fn:COLUMN']))
+        on.append('S')
+    return {'sheets': [{'title': t, 'cells': cells_of[t]} for t in tables], 'queries': qs, 'on': on, 'first_col': first_col, 'ncols': 400}
 
 
 def run_case(spec):
@@ -308,7 +328,7 @@ def strategy():
                 lk['short'] = draw(st.booleans())
             lookups.append(lk)
         return {'kind': kind, 'keys': keys, 'width': width, 'lookups': lookups,
-                'index_grid': draw(st.integers(0, 2)) == 0, 'column_self': draw(st.booleans())}
+                'index_grid': draw(st.integers(0, 2)) == 0, 'column_self': draw(st.booleans()), 'twin': draw(st.integers(0, 2)) == 0}
     return spec()
 
 
@@ -379,6 +399,8 @@ def shrink_candidates(spec):
         if spec.get('index_grid'):
             yield {**spec, 'lookups': [], 'column_self': False}
         return
+    if spec.get('twin'):
+        yield {**spec, 'twin': False}
     if spec['width'] > 1:
         w = spec['width'] - 1
         yield {**spec, 'width': w, 'lookups': [{**l, 'col': min(l.get('col', 1), w)} for l in lks]}
